@@ -328,6 +328,9 @@ class Check:
         kf = VERIF / "known_findings.json"
         self.known = [e for e in json.loads(kf.read_text())["findings"]
                       if e["property"] == prop] if kf.exists() else []
+        kd = VERIF / "known_findings.d" / f"{prop}.json"  # per-property part of the same committed list
+        if kd.exists():
+            self.known += [e for e in json.loads(kd.read_text())["findings"] if e["property"] == prop]
 
     # -- bookkeeping ----------------------------------------------------------------
     def count(self, key, n=1):
